@@ -517,3 +517,88 @@ SUBCHECKS = [
              rule='non-trivial = input touches m=l, l=L-2 / L-1 or carries dense noise, or radius != 1',
              doc='dense / sparse random (vorticity, divergence) with leading axes: round trip and analytic winds'),
 ]
+
+
+# ----------------------------------------------------------------------------
+# one-parameter twins in one process (anything cached per grid / per compiled wrapper with too coarse a key)
+
+
+def _twin_strategy(tier):
+  return st.fixed_dictionaries({
+      'grid': gc.grid_cfgs(max_m=6 if tier == 'quick' else 12, kinds=('vector',), resolutions=('resolved',)),
+      'change': st.sampled_from(['radius', 'radius', 'clip_history', 'L', 'nlat']),
+      'radius2': st.sampled_from([2.5, 0.4, 6.371e6, 1.0]),
+      'clip_n': st.integers(2, 3), 'back_to_base': st.booleans()})
+
+
+def run_twins(case):
+  """A grid and then, in the same process, a twin that differs in exactly one attribute (or the same Grid after a
+  call with a non-default argument): each must still satisfy the analytic-derivative comparison of `run_nodal` and
+  the wind round trip of `run_identities`. The jitted module-level wrappers (vor_div_to_uv_nodal,
+  uv_nodal_to_vor_div_modal take the grid as a static argument) and anything memoised per grid are reused across the
+  two, which is where a too coarse key or equality shows."""
+  import copy
+  base = {'grid': case['grid']}
+  seq = [('base', base)]
+  twin = copy.deepcopy(base)
+  ch = case['change']
+  if ch == 'radius':
+    r2 = float(case['radius2'])
+    if (twin['grid'].get('radius') or 1.0) == r2:
+      r2 = r2 * 3.0
+    twin['grid']['radius'] = r2
+  elif ch in ('L', 'nlat') and twin['grid'].get('via'):
+    # sizes of grids made by the special constructors follow from their own rules: change the radius instead
+    twin['grid']['radius'] = float((twin['grid'].get('radius') or 1.0) * 2.0)
+  elif ch == 'L':
+    twin['grid']['L'] = twin['grid']['L'] + 1
+    twin['grid']['nlat'] = twin['grid']['nlat'] + 1
+  elif ch == 'nlat':
+    twin['grid']['nlat'] = twin['grid']['nlat'] + 2
+  seq.append(('twin', twin))
+  if case.get('back_to_base'):
+    seq.append(('base_again', base))
+  out = Outcome(labels=gc.labels(case['grid'], 'vector') + [f'twin_change={ch}'], units=0, nontrivial=True)
+  for which, c in seq:
+    if ch == 'clip_history' and which == 'twin':
+      # same configuration, but this Grid object has been asked for a non-default clip first
+      g = gc.build(c['grid'])
+      x = np.ones(tuple(g.modal_shape))
+      L = c['grid']['L']
+      n_clip = min(int(case['clip_n']), L - 1)
+      if n_clip < 2:
+        continue                      # too small a truncation for a non-default clip
+      y = np.asarray(g.clip_wavenumbers(x, n=n_clip))
+      if np.any(y[..., :, L - n_clip:L] != 0) or np.any(y[..., :, :L - n_clip] != 1):
+        return out.fail(what='clip_wavenumbers(n) does not zero exactly the top n total wavenumbers', n=n_clip, L=L)
+      y1 = np.asarray(g.clip_wavenumbers(x))
+      if np.any(y1[..., :, L - 1:L] != 0) or np.any(y1[..., :, :L - 1] != 1):
+        return out.fail(what='default clip_wavenumbers after a call with n=%d on the same Grid does not clip exactly '
+                             'one wavenumber' % case['clip_n'])
+      gx = np.asarray(g.cos_lat_grad(x)[1])
+      gy = np.asarray(g.clip_wavenumbers(g.cos_lat_grad(x, clip=False)[1], n=1))
+      if not np.array_equal(gx, gy):
+        return out.fail(what='cos_lat_grad(clip=True) after clip_wavenumbers(n=%d) on the same Grid differs from '
+                             'clipping one wavenumber' % case['clip_n'])
+      out.units += 3
+      continue
+    for fn in (run_nodal, run_identities):
+      if fn is run_identities and c['grid']['spacing'] not in _NO_POLES:
+        continue
+      o = fn(c)
+      out.units += o.units
+      if not o.ok:
+        det = dict(o.detail or {})
+        det['sequence_position'] = which
+        det['changed'] = ch
+        return out.fail(**det)
+  return out
+
+
+SUBCHECKS.append(
+    Subcheck('grid_twins', run_twins, strategy=_twin_strategy,
+             examples={'quick': 16, 'thorough': 160}, shards={'quick': 2, 'thorough': 4},
+             wall={'quick': 300.0, 'thorough': 1500.0}, weight=3,
+             rule='non-trivial = two (three) grids differing in exactly one attribute were evaluated in one process',
+             doc='history of grids in one process (radius / truncation / node count changed, or a non-default clip '
+                 'first): analytic derivatives, winds and round trips still hold for each'))
